@@ -9,5 +9,5 @@ for old, rep in pairs:
     assert new.count(old) == 1, (old, new.count(old))
     new = new.replace(old, rep)
 diff = "".join(difflib.unified_diff(src.splitlines(True), new.splitlines(True), f"a/{rel}", f"b/{rel}"))
-open(f"/verif/mutants/{name}.patch", "a").write(diff)
+open(f"/verif/mutants/{name}.patch", "a" if "--append" in sys.argv else "w").write(diff)
 print(diff)
